@@ -158,8 +158,7 @@ def run(R):
     filter_rules(R)
 
     # ---- GLUE
-    ae = ro.AsyncTask.methods.get("_accept_error")
-    R.need(ae is not None, "anchor vanished: AsyncTask._accept_error")
+    ae = ro.accept_error_method()
     acfg = cfg_of(ae)
     ep = q.param_names(ae.node)[1]
 
@@ -229,19 +228,44 @@ def run(R):
         R.info("AsyncTask.traceback is not in the recursive form; only the fallback pairing was decided")
     # ---- FORMAT
     fe = repo.fn("debug.format_error")
-    tests = []
-    node = [s_ for s_ in fe.node.body if isinstance(s_, ast.If) and "tb" in q.src(s_.test)]
-    R.need(node, "idiom: format_error's dispatch")
-    cur = node[0]
-    while cur is not None:
-        tests.append(q.src(cur.test))
-        nxt = cur.orelse[0] if len(cur.orelse) == 1 and isinstance(cur.orelse[0], ast.If) else None
-        has_else = bool(cur.orelse) and nxt is None
-        cur = nxt
-    R.check(tests == ["hasattr(error, '_traceback') or tb is not None", "isinstance(error, BaseException)"] and has_else, "C18.FORMAT", fe.qualname + ":arms", R.site(fe),
-            "format_error has an arm for errors with a traceback, exceptions without one, and anything else", "format_error's arms are %s" % tests)
+    fcfg2 = cfg_of(fe)
+    ep0 = q.param_names(fe.node)[0]
+    # the three kinds of input each get their formatting: with traceback -> format_exception, exception without -> format_exception_only,
+    # anything else -> nothing; None -> None
+    fexc = [n for n, c in kit.call_sites(fe, lambda c: q.call_name(c) == "traceback.format_exception")]
+    fonly = [n for n, c in kit.call_sites(fe, lambda c: q.call_name(c) == "traceback.format_exception_only")]
+
+    def has_tb(nd):
+        if nd.kind != "test":
+            return None
+        if isinstance(nd.ast, ast.Call) and q.call_name(nd.ast) == "hasattr" and [q.src(a) for a in nd.ast.args] == [ep0, "'_traceback'"]:
+            return "T"
+        k, s_, pos = q.atom_test(nd.ast)
+        if k == "isnone" and s_ == "tb":
+            return "F" if pos else "T"
+        return None
+
+    def is_exc(nd):
+        if nd.kind != "test":
+            return None
+        k, s_, pos = q.atom_test(nd.ast)
+        if k == "isinstance" and s_ == (ep0, "BaseException"):
+            return "T" if pos else "F"
+        return None
+    p1 = kit.path_avoiding_guard(fcfg2, fexc, has_tb, N)
+    p2 = kit.path_avoiding_guard(fcfg2, fonly, is_exc, N)
+    R.check(p1 is None and p2 is None and fexc and fonly, "C18.FORMAT", fe.qualname + ":arms", R.site(fe),
+            "an error with a traceback is formatted with it, an exception without one with format_exception_only, anything else without either",
+            "format_error no longer distinguishes 'has a traceback' / 'exception without traceback' / 'anything else'")
+    # every path to the end has tb_list defined (the third kind gets an empty list)
+    tl_defs = [n for n in fcfg2.nodes if n.kind == "stmt" and isinstance(n.ast, ast.Assign) and "tb_list" in q.names_stored(n.ast)]
+    uses = [n for n in fcfg2.nodes if n.kind == "stmt" and "tb_list" in q.names_loaded(n.ast) and n not in tl_defs]
+    p = fcfg2.find_path([fcfg2.entry], uses, N, cut_nodes=tl_defs)
+    R.check(p is None and uses, "C18.FORMAT", fe.qualname + ":total", R.site(fe),
+            "the list of formatted lines is defined on every path (an object that is neither is formatted to an empty text)",
+            "format_error can use tb_list before any arm assigned it (UnboundLocalError for an error that is not an exception)", fcfg2.fmt_path(p) if p else None)
     first = [s_ for s_ in fe.node.body if isinstance(s_, ast.If)][0]
-    R.check(q.src(first.test) == "error is None" and any(isinstance(x, ast.Return) for x in first.body), "C18.FORMAT", fe.qualname + ":none", R.site(fe),
+    R.check(q.src(first.test) == "%s is None" % ep0 and any(isinstance(x, ast.Return) for x in first.body), "C18.FORMAT", fe.qualname + ":none", R.site(fe),
             "only None formats to None", "format_error's None handling changed")
     # debug.str/repr cannot raise Exception
     dm = repo.modules["debug"]
@@ -441,7 +465,8 @@ def filter_rules(R):
     rets = [q.src(n.value) for n in q.scope_nodes(ft.node) if isinstance(n, ast.Return)]
     outn = q.dotted(q.attr_call(kit.node_calls(emits[0])[0])[0]) if kit.node_calls(emits[0]) else None
     R.check(len(rets) == 1 and rets[0] == outn, "C18.FILTER", ft.qualname + ":returns", R.site(ft), "the filtered list is returned", "returns %s" % rets)
-    pats = [n for n in q.scope_nodes(ft.node) if isinstance(n, ast.Assign) and isinstance(n.value, ast.Tuple) and len(n.value.elts) == 2 and isinstance(n.value.elts[0], ast.List)]
+    pats = [n for n in list(q.scope_nodes(ft.node)) + list(repo.modules["debug"].tree.body)
+            if isinstance(n, ast.Assign) and isinstance(n.value, ast.Tuple) and len(n.value.elts) == 2 and isinstance(n.value.elts[0], ast.List)]
     R.check(len(pats) >= 3 and all(p_.value.elts[0].elts for p_ in pats), "C18.FILTER", ft.qualname + ":patterns", R.site(ft), "every boilerplate pattern is non-empty (%d patterns)" % len(pats),
             "a boilerplate pattern is empty (it would match everywhere)")
 
